@@ -280,6 +280,24 @@ class Slicer:
             if a is not None and a != 0:
                 return None if b is None else (1 if b else 0)
             return None
+        if k == "BinaryOperator" and n.get("opcode") in ("<", "<=", ">", ">=", "==", "!=", "+", "-", "*"):
+            # comparisons / arithmetic of locals whose value is a known constant on this path (loop counters,
+            # pass numbers, flags); small values only, so no wrap is involved
+            a = self.static_int(n["inner"][0], sub)
+            b = self.static_int(n["inner"][1], sub)
+            if a is None or b is None or abs(a) > (1 << 30) or abs(b) > (1 << 30):
+                return None
+            op = n["opcode"]
+            if op == "+":
+                return a + b
+            if op == "-":
+                return a - b if (a - b >= 0 or (L.ctype(n) or (True, 0))[0]) else None
+            if op == "*":
+                return a * b if abs(a * b) <= (1 << 30) else None
+            return 1 if {"<": a < b, "<=": a <= b, ">": a > b, ">=": a >= b, "==": a == b, "!=": a != b}[op] else 0
+        if k == "UnaryOperator" and n.get("opcode") == "-":
+            v = self.static_int(n["inner"][0], sub)
+            return None if v is None or not (L.ctype(n) or (True, 0))[0] else -v
         return None
 
     # ---- symbolic pointers: (line expression | None, byte offset from the ring base) ----
@@ -782,14 +800,27 @@ class Slicer:
             out = [self.rx(s, sub)]
             if l0.get("kind") == "DeclRefExpr" and sub.get(l0["referencedDecl"]["name"], (None,))[0] == "var":
                 v = sub[l0["referencedDecl"]["name"]]
-                sub[l0["referencedDecl"]["name"]] = (v[0], v[1], v[2], self.static_int(rhs, sub) if s["opcode"] == "=" else None, None)
+                if s["opcode"] == "=":
+                    nv = self.static_int(rhs, sub)
+                elif s["opcode"] in ("+=", "-=") and v[3] is not None and self.static_int(rhs, sub) is not None and \
+                        (L.ctype(lhs) or (False, 0))[0]:
+                    nv = v[3] + self.static_int(rhs, sub) if s["opcode"] == "+=" else v[3] - self.static_int(rhs, sub)
+                else:
+                    nv = None
+                sub[l0["referencedDecl"]["name"]] = (v[0], v[1], v[2], nv, None)
             return out + self.seq(R, sub, cont, retk)
         if k == "UnaryOperator" and s.get("opcode") in ("++", "--"):
             out = [self.rx(s, sub)]
             l0 = strip_all(s["inner"][0])
             if l0.get("kind") == "DeclRefExpr" and sub.get(l0["referencedDecl"]["name"], (None,))[0] == "var":
                 v = sub[l0["referencedDecl"]["name"]]
-                sub[l0["referencedDecl"]["name"]] = (v[0], v[1], v[2], None, None)
+                # a signed counter with a known value stays known (++pass, --i); unsigned ones only while no wrap
+                nv = None
+                if v[3] is not None and abs(v[3]) < (1 << 30):
+                    nv = v[3] + 1 if s["opcode"] == "++" else v[3] - 1
+                    if nv < 0 and not (L.ctype(s["inner"][0]) or (False, 0))[0]:
+                        nv = None
+                sub[l0["referencedDecl"]["name"]] = (v[0], v[1], v[2], nv, None)
             return out + self.seq(R, sub, cont, retk)
         if k == "CallExpr":
             f = self.fn(self.callee(s))
